@@ -2061,8 +2061,28 @@ func runR99(c *Ctx) {
 				}
 				match := false
 				for _, is := range starts {
-					if is.fld == nil && is.fn == fn && is.src == v {
+					if is.fld != nil {
+						continue
+					}
+					if is.fn == fn && is.src == v {
 						match = true
+					}
+					// the probe lives in a helper (findSlot(i, hash)): the value bound to the helper's parameter
+					// at a call in this function
+					if prm, ok := is.src.(*ssa.Parameter); ok && is.fn != fn {
+						pi := -1
+						for i, q := range is.fn.Params {
+							if q == prm {
+								pi = i
+							}
+						}
+						eachInstr(fn, func(i2 ssa.Instruction) {
+							if call, ok := i2.(ssa.CallInstruction); ok && staticCallee(call) == is.fn && pi >= 0 && pi < len(call.Common().Args) {
+								if stripConv(call.Common().Args[pi]) == v {
+									match = true
+								}
+							}
+						})
 					}
 				}
 				switch {
